@@ -353,6 +353,9 @@ func (o *LifeOracle) Step(si *engine.StepInfo) []engine.Finding {
 	if o.Props["C12"] {
 		out = append(out, C12Step(si, pre, post)...)
 	}
+	if o.Props["C15"] {
+		out = append(out, C15Step(si, pre, post)...)
+	}
 	if f := C16Step(si, pre, post, g); o.Props["C16"] {
 		out = append(out, f...)
 	}
